@@ -87,6 +87,7 @@ Definition size_len (e : entry) (n : N) : N :=
   1 + size64 (e_term e) + size64 (e_index e) + size_type (e_type e) +
   size64 (e_key e) + size64 (e_client e) + size64 (e_series e) +
   size64 (e_responded e) + size_cmd_len n.
+Definition size_upper_limit_len (n : N) : N := entry_non_cmd_fields_size + n.
 Definition size_checked_len (e : entry) (n : N) : option N :=
   if colfer_size_max <? n then None
   else if colfer_size_max <? size_len e n then None else Some (size_len e n).
